@@ -8,28 +8,34 @@
 (*  "size": unit selection for a byte count written m*B^e + d.             *)
 (*  "time": the h/m/s split of a duration below 60 hours.                  *)
 (*  "pct" : the percentage as an exact fraction.                           *)
+(*  "median": the default moving average of the ETA decorator: a window of  *)
+(*          the last three samples; reading it does not change it.         *)
 (* TLC checks the invariants and prints one case per terminal state; the   *)
 (* driver formats the same value with the real decorators / formatter      *)
 (* types and compares (numbers parsed back, exact rational arithmetic).    *)
 (* TLC integers are 32-bit, so sizes are kept symbolic (B, e, m, d).       *)
 (***************************************************************************)
-EXTENDS Integers, Sequences, TLC, Json
+EXTENDS Integers, Sequences, FiniteSets, TLC, Json
 
-CONSTANTS SampleN, SampleDur, MaxSamples
+CONSTANTS SampleN, SampleDur, MaxSamples, MedianVals, MaxMedianOps
 
 Seqs(S, n) == UNION {[1..k -> S] : k \in 0..n}
 
-VARIABLES kind, c, i, zDur, adds, received, accounted
-vars == <<kind, c, i, zDur, adds, received, accounted>>
+VARIABLES kind, c, i, zDur, adds, received, accounted, win, outs
+vars == <<kind, c, i, zDur, adds, received, accounted, win, outs>>
 
 EwmaCases == [samples : Seqs([n : SampleN, dur : SampleDur], MaxSamples) \ {<<>>}]
 SizeCases == [base : {1000, 1024}, e : 0..5, m : {1, 2, 999}, d : {-1, 0, 1}]
 TimeCases == [h : {0, 1, 23, 59}, m : {0, 1, 59}, s : {0, 1, 59}, ms : {0, 999}]
 PctCases  == [total : {1, 3, 7, 100, 120}, cur : 0..8]
+(* an operation on the window: 0 reads it (a frame is drawn), v > 0 adds the sample v *)
+MedianCases == [ops : Seqs(MedianVals \cup {0}, MaxMedianOps) \ {<<>>}]
 
-Init == /\ kind \in {"ewma", "size", "time", "pct"}
-        /\ c \in (CASE kind = "ewma" -> EwmaCases [] kind = "size" -> SizeCases [] kind = "time" -> TimeCases [] OTHER -> PctCases)
+Init == /\ kind \in {"ewma", "size", "time", "pct", "median"}
+        /\ c \in (CASE kind = "ewma" -> EwmaCases [] kind = "size" -> SizeCases [] kind = "time" -> TimeCases
+                     [] kind = "median" -> MedianCases [] OTHER -> PctCases)
         /\ i = 1 /\ zDur = 0 /\ adds = <<>> /\ received = 0 /\ accounted = 0
+        /\ win = <<0, 0, 0>> /\ outs = <<>>
 
 (* decor/eta.go:89-102 and decor/speed.go:96-109: one EwmaUpdate(n, dur) *)
 Update ==
@@ -42,15 +48,35 @@ Update ==
                /\ adds' = Append(adds, [num |-> zDur + s.dur, den |-> s.n])
                /\ accounted' = accounted + zDur + s.dur
                /\ zDur' = 0
-  /\ i' = i + 1 /\ UNCHANGED <<kind, c>>
+  /\ i' = i + 1 /\ UNCHANGED <<kind, c, win, outs>>
 
-Done == IF kind = "ewma" THEN i = Len(c.samples) + 1 ELSE TRUE
-Next == Update \/ (Done /\ UNCHANGED vars)
+(* decor/moving_average.go: the window of the last three samples, oldest first *)
+Median3(w) == CHOOSE x \in {w[1], w[2], w[3]} :
+                 /\ Cardinality({k \in 1..3 : w[k] <= x}) >= 2
+                 /\ Cardinality({k \in 1..3 : w[k] >= x}) >= 2
+MedianOp ==
+  /\ kind = "median" /\ i <= Len(c.ops)
+  /\ IF c.ops[i] = 0
+     THEN outs' = Append(outs, Median3(win)) /\ UNCHANGED win
+     ELSE win' = <<win[2], win[3], c.ops[i]>> /\ UNCHANGED outs
+  /\ i' = i + 1 /\ UNCHANGED <<kind, c, zDur, adds, received, accounted>>
+
+Done == CASE kind = "ewma" -> i = Len(c.samples) + 1 [] kind = "median" -> i = Len(c.ops) + 1 [] OTHER -> TRUE
+Next == Update \/ MedianOp \/ (Done /\ UNCHANGED vars)
 Spec == Init /\ [][Next]_vars
 
 (* no time is lost and none is invented *)
 Conservation == kind = "ewma" => received = accounted + zDur
 NoDivisionByZero == kind = "ewma" => \A k \in DOMAIN adds : adds[k].den > 0
+
+(* every reading is the median of the last three samples added before it (zeros before the first ones),
+   whatever was read in between *)
+AddedBefore(k) == SelectSeq(SubSeq(c.ops, 1, k - 1), LAMBDA v : v # 0)
+LastThree(q) == LET p == <<0, 0, 0>> \o q IN SubSeq(p, Len(p) - 2, Len(p))
+ReadPos == IF kind = "median" THEN {k \in 1..(i - 1) : c.ops[k] = 0} ELSE {}
+MedianOfLastThree ==
+  kind = "median" =>
+    \A k \in ReadPos : outs[Cardinality({j \in ReadPos : j <= k})] = Median3(LastThree(AddedBefore(k)))
 
 (* size: which unit (0 = b, 1 = K, ... 4 = T) and what the mantissa is in that unit *)
 SizeUnit(x) == LET raw == IF x.e = 0 /\ x.m + x.d >= x.base THEN 1     \* 999 + 1 bytes are one K
@@ -69,7 +95,7 @@ SplitOK == kind = "time" => /\ (Secs(c) \div 3600) % 60 = c.h
                             /\ (Secs(c) \div 60) % 60 = c.m
                             /\ Secs(c) % 60 = c.s
 
-EmitCase == Done => PrintT(<<"DECOR", ToJson([kind |-> kind, c |-> c, adds |-> adds, zDur |-> zDur,
+EmitCase == Done => PrintT(<<"DECOR", ToJson([kind |-> kind, c |-> c, adds |-> adds, zDur |-> zDur, outs |-> outs,
                                               unit |-> IF kind = "size" THEN SizeUnit(c) ELSE 0,
                                               indomain |-> IF kind = "size" THEN SizeInDomain(c) ELSE TRUE])>>)
 =============================================================================
